@@ -169,6 +169,72 @@ fn verif_ack_manager_transmit() {
     kani::cover!(true, "ACK sent and completed");
 }
 
+// thorough: THREE processed packets (concrete numbers, symbolic elicitation flags): what is
+// remembered for acknowledgement is exactly the set of numbers processed - nothing else, each once,
+// coalesced into the right number of ranges - and the third packet's promptness rule.
+fn three_packets(a: u64, b: u64, c: u64, expect_ranges: usize) {
+    let mut mgr = AckManager::new(PacketNumberSpace::ApplicationData, ack::Settings::default());
+    let mut publisher = Publisher::no_snapshot();
+    let t0 = NoopClock.get_time();
+    let d = DatagramInfo {
+        timestamp: t0,
+        payload_len: 1200,
+        ecn: ExplicitCongestionNotification::NotEct,
+        destination_connection_id: connection::LocalId::TEST_ID,
+        destination_connection_id_classification: connection::id::Classification::Local,
+        source_connection_id: None,
+    };
+    let ip = [0u8; 4];
+    let cid = [0u8; 1];
+    let mkpath = || s2n_quic_core::event::builder::Path {
+        local_addr: s2n_quic_core::event::builder::SocketAddress::IpV4 { ip: &ip, port: 0 },
+        local_cid: s2n_quic_core::event::builder::ConnectionId { bytes: &cid },
+        remote_addr: s2n_quic_core::event::builder::SocketAddress::IpV4 { ip: &ip, port: 0 },
+        remote_cid: s2n_quic_core::event::builder::ConnectionId { bytes: &cid },
+        id: 0,
+        is_active: true,
+    };
+    let e: [bool; 3] = kani::any();
+    let nums = [a, b, c];
+    let mut i = 0;
+    while i < 3 {
+        let mut p = ProcessedPacket::new(pn(nums[i]), &d);
+        if e[i] {
+            p.ack_elicitation = AckElicitation::Eliciting;
+        }
+        mgr.on_processed_packet(&p, mkpath(), &mut publisher);
+        i += 1;
+    }
+    // exactly the processed numbers
+    assert!(mgr.ack_ranges.count() == 3);
+    assert!(mgr.ack_ranges.interval_len() == expect_ranges);
+    assert!(mgr.ack_ranges.contains(&pn(a)) && mgr.ack_ranges.contains(&pn(b)) && mgr.ack_ranges.contains(&pn(c)));
+    let lo = core::cmp::min(a, core::cmp::min(b, c));
+    let hi = core::cmp::max(a, core::cmp::max(b, c));
+    assert!(mgr.ack_ranges.min_value() == Some(pn(lo)) && mgr.ack_ranges.max_value() == Some(pn(hi)));
+    // RFC 9000 13.2.1: the third packet is ack-eliciting and not the direct successor of the
+    // largest number processed before it => an ACK is due at once
+    let prev_max = core::cmp::max(a, b);
+    if e[2] && c != prev_max + 1 {
+        assert!(mgr.has_transmission_interest());
+    }
+    if !e[0] && !e[1] && !e[2] {
+        assert!(!mgr.has_transmission_interest() && !mgr.ack_delay_timer.is_armed());
+    }
+    core::mem::forget(mgr);
+    core::mem::forget(publisher);
+}
+
+#[cfg_attr(kani, kani::proof)]
+#[cfg_attr(kani, kani::unwind(6))]
+fn verif_ack_manager_three_packets() {
+    three_packets(100, 101, 102, 1);
+    three_packets(100, 102, 101, 1);
+    three_packets(100, 104, 102, 3);
+    three_packets(100, 101, 98, 2);
+    kani::cover!(true, "all three-packet orders done");
+}
+
 // ---- generated by tools/fixup.py: native replay entry ----
 #[cfg(not(kani))]
 #[test]
@@ -176,5 +242,6 @@ fn verif_replay() {
     kani::replay(&[
         ("verif_ack_manager_two_packets", verif_ack_manager_two_packets),
         ("verif_ack_manager_transmit", verif_ack_manager_transmit),
+        ("verif_ack_manager_three_packets", verif_ack_manager_three_packets),
     ]);
 }
